@@ -10,7 +10,7 @@ KIND = 'C17'
 TARGETS = ['theories/Proofs/EncodingProofs.v', 'theories/Run/RunC17.v']
 RULE = ('generated documents (non-ASCII, non-BMP strings and comments) x 10 encodings x padded to every length residue mod 4; '
         'long files with a non-BMP character at and around every power-of-two byte offset 1 KiB..64 KiB (128 KiB thorough) in each encoding; '
-        'random byte strings (uniform, zero-heavy, BOM-prefixed, truncated encodings) for totality and the Latin-1 fallback; '
+        'random byte strings (uniform, zero-heavy, BOM-prefixed, truncated encodings) for totality and the Latin-1 fallback; text that mixes valid UTF-8 sequences and Latin-1 bytes, also behind a UTF-8 byte order mark, and arbitrary bytes behind every byte order mark, each through load() of a file; '
         'non-trivial = non-UTF-8 encoding or invalid bytes; distinct = distinct byte string')
 ASSUMPTIONS = ['texts contain no NUL character (hypothesis of C17_decode_encode, forced by the UTF-32 heuristic)',
                'std::fs file reading returns the bytes written']
@@ -85,6 +85,21 @@ def gen_cases(rng, tier):
             cases.append([b, b, 2])                                        # valid UTF-8 after all: stays as it is
         except UnicodeDecodeError:
             cases.append([b, b.decode('latin-1').encode('utf-8'), 2])      # every byte is one Latin-1 character
+    # the same behind a byte order mark: a UTF-8 BOM in front of valid UTF-8 is removed; in front of text that is not valid
+    # UTF-8 its three bytes are three Latin-1 characters like all others.  Through load() as well (flag 2).
+    for i in range(300 if tier == 'quick' else 10000):
+        body = b'A' + b''.join(rng.choice(pieces) for _ in range(rng.randrange(1, 9)))
+        b = b'\xef\xbb\xbf' + body
+        try:
+            body.decode('utf-8')
+            cases.append([b, body, 2])
+        except UnicodeDecodeError:
+            cases.append([b, b.decode('latin-1').encode('utf-8'), 2])
+    # arbitrary bytes behind every byte order mark, through load(): no expectation about the text, only totality (flag 3)
+    for i in range(300 if tier == 'quick' else 10000):
+        b = rng.choice([b'\xff\xfe', b'\xfe\xff', b'\xef\xbb\xbf', b'\x00\x00\xfe\xff', b'\xff\xfe\x00\x00', b'']) + \
+            bytes(rng.choice([0x41, 0x20, 0xe4, 0xff, 0x80, 0xc3, 0xa4, 0x00, 0xd8, 0xdc, rng.randrange(256)]) for _ in range(rng.randrange(0, 12)))
+        cases.append([b, b'', 3])
     return cases
 
 
@@ -101,7 +116,7 @@ def oracle(case, impl_line):
     r = sx.dec(impl_line)
     if r == [b'PANIC']:
         return 'panic while decoding / loading %d bytes' % len(case[0])
-    if case[2]:
+    if case[2] in (1, 2):
         if r[1] != case[1]:
             return 'decoded text differs from the original text (first bytes %r)' % case[0][:12]
         if case[2] == 1 and r[2] != 1:
